@@ -4,7 +4,9 @@ import (
 	"crypto/sha1"
 	"encoding/hex"
 	"encoding/json"
+	"errors"
 	"fmt"
+	"io"
 	"math/rand"
 	"net/netip"
 	"os"
@@ -48,6 +50,12 @@ type Plan struct {
 	// and rounds that set the private key never answer: that overlap is the listed finding F3c.
 	Respond bool       `json:"respond"`
 	Callers [][]PlanOp `json:"callers"`
+	// CloseFault: at the end of the round the sim bind is told to report an error from Close
+	// (after really closing) and to let its receive functions notice the close only after
+	// 45 ms; 1 = before a final Down, 2 = before the final Close.  The device is up then.
+	CloseFault int `json:"close_fault,omitempty"`
+	// FinalClose2: the final Close is issued by two goroutines at once.
+	FinalClose2 bool `json:"final_close2,omitempty"`
 	// Unsafe lifts the exclusion of the overlaps behind the listed lock-order findings
 	// (direct BindUpdate together with peer-set / private-key changes).  Never set by the
 	// random generator of the check; used by the dedicated F3 family runs only.
@@ -68,16 +76,29 @@ func genPlan(seed int64, round int, callers, opsPer int) Plan {
 	}
 	closeMid := r.Intn(3) == 0
 	closer := r.Intn(callers)
+	closer2 := -1 // a second caller that also closes mid-plan
+	if r.Intn(2) == 0 {
+		closer2 = r.Intn(callers)
+	}
+	closeTwice := r.Intn(2) == 0 // the closer issues two overlapping Close calls
+	if r.Intn(5) == 0 {
+		p.CloseFault = 1 + r.Intn(2)
+	}
+	p.FinalClose2 = r.Intn(2) == 0
 	for c := 0; c < callers; c++ {
 		var ops []PlanOp
 		n := opsPer/2 + r.Intn(opsPer)
 		closeAt := -1
-		if closeMid && c == closer {
+		if closeMid && (c == closer || c == closer2) {
 			closeAt = n/2 + r.Intn(n/2+1)
 		}
 		for i := 0; i < n; i++ {
 			if i == closeAt {
-				ops = append(ops, PlanOp{K: "close"})
+				if closeTwice && c == closer {
+					ops = append(ops, PlanOp{K: "close2", A: r.Intn(300)})
+				} else {
+					ops = append(ops, PlanOp{K: "close"})
+				}
 			}
 			x := r.Intn(100)
 			switch {
@@ -119,8 +140,11 @@ func genPlan(seed int64, round int, callers, opsPer int) Plan {
 				ops = append(ops, PlanOp{K: "mtu", A: []int{1280, 1420, 9000}[r.Intn(3)]})
 			case x < 94:
 				ops = append(ops, PlanOp{K: "tunburst", P: r.Intn(p.Peers), A: 1 + r.Intn(20)})
-			default:
+			case x < 97:
 				ops = append(ops, PlanOp{K: "sleep", A: r.Intn(3000)})
+			default:
+				// a UAPI set whose input arrives slowly: IpcSetOperation holds ipcMutex meanwhile
+				ops = append(ops, PlanOp{K: "set_slow", A: 200 + r.Intn(3000)})
 			}
 		}
 		p.Callers = append(p.Callers, ops)
@@ -258,6 +282,22 @@ func (r *round) exec(caller int, op PlanOp) {
 		inv, ret = evInvClose, evRetClose
 	case "set_add", "set_keepalive", "set_endpoint", "set_replace_peers":
 		inv, ret = evInvPeerCfg, evRetPeerCfg
+	case "close2":
+		// two overlapping Close calls (RoutineReadFromTUN's `go device.Close()` on a read error,
+		// a signal handler and device.Wait() users do this in real deployments)
+		var wg sync.WaitGroup
+		for k := 0; k < 2; k++ {
+			wg.Add(1)
+			go func(k int) {
+				defer wg.Done()
+				if k == 1 {
+					time.Sleep(time.Duration(op.A) * time.Microsecond)
+				}
+				r.exec(1000+2*caller+k+2, PlanOp{K: "close"})
+			}(k)
+		}
+		wg.Wait()
+		return
 	case "sleep":
 		time.Sleep(time.Duration(op.A) * time.Microsecond)
 		return
@@ -293,10 +333,18 @@ func (r *round) exec(caller int, op PlanOp) {
 	case "down":
 		err = dev.Down()
 	case "close":
-		r.tunMu.Lock()
+		r.tunMu.RLock() // several Close calls may overlap; only sim.Tun.Event is kept out
 		dev.Close()
 		r.closed.Store(true)
-		r.tunMu.Unlock()
+		r.tunMu.RUnlock()
+	case "set_slow":
+		pr, pw := io.Pipe()
+		go func() {
+			pw.Write([]byte(fmt.Sprintf("fwmark=%d\n", op.A%3)))
+			time.Sleep(time.Duration(op.A) * time.Microsecond)
+			pw.Close()
+		}()
+		err = dev.IpcSetOperation(pr)
 	case "bindupdate":
 		err = dev.BindUpdate()
 	case "get":
@@ -343,15 +391,15 @@ func (r *round) exec(caller int, op PlanOp) {
 		err = dev.IpcSet("replace_peers=true\n" + peerSection(r.peers[0], 0, true))
 	case "mtu":
 		r.w.Tun.SetMTU(op.A)
-		r.tunMu.RLock()
+		r.tunMu.Lock()
 		if !r.closed.Load() {
 			r.w.Tun.Event(tun.EventMTUUpdate)
 		}
-		r.tunMu.RUnlock()
+		r.tunMu.Unlock()
 	}
 	r.end(caller, id, ret)
 	if op.K == "down" || op.K == "close" {
-		r.observePeers(id)
+		r.observePeers(id, op.A == forceScan)
 	}
 	r.count("op_"+op.K, 1)
 	if err != nil {
@@ -363,7 +411,11 @@ func (r *round) exec(caller int, op PlanOp) {
 // counts "a peer is running" only if the whole bracket lies inside a window in which the model
 // says peers are stopped (so a stale read stamped after a later Close/Down cannot alarm, and any
 // Up / peer-section call invoked before the reads ended closes the window first).
-func (r *round) observePeers(id int) {
+// forceScan as the argument of a down/close op makes observePeers scan for receive loops
+// regardless of the sampling.
+const forceScan = -7
+
+func (r *round) observePeers(id int, force bool) {
 	running := false
 	dbg := ""
 	s0 := sim.Seq.Add(1)
@@ -403,7 +455,7 @@ func (r *round) observePeers(id int) {
 	loop := false
 	// scanned only while the sim bind is closed: with the bind open either a later Up has ended
 	// the window, or clauses 2/4 of the monitor already report the open bind
-	if (id%2 == 0 || r.closed.Load()) && !r.w.Bind.IsOpen() {
+	if (force || id%2 == 0 || r.closed.Load()) && !r.w.Bind.IsOpen() {
 		r.count("recv_loop_scans", 1)
 		if recvParked() {
 			time.Sleep(20 * time.Millisecond)
@@ -647,14 +699,43 @@ func runRound(plan Plan, outDir string, hangLimit time.Duration) Case {
 		}(c, ops)
 	}
 	cwg.Wait()
-	// a last Down with the traffic still running exercises "nothing sent after Down returned"
-	if !r.closed.Load() && plan.Round%2 == 0 {
+	// fault injection at the end (no caller is running any more, so setting the sim bind's
+	// fields is ordered before every later read): bind.Close reports an error although it did
+	// close, and the receive functions notice the close only after 45 ms.  The device must still
+	// wait for its receive loops before Down / Close return (closeBindLocked: stopping.Wait()).
+	fault := func(on bool) {
+		if on {
+			w.Bind.CloseErr = errors.New("sim: close reported an error")
+			w.Bind.CloseDelay = 45 * time.Millisecond
+		} else {
+			w.Bind.CloseErr = nil
+			w.Bind.CloseDelay = 0
+		}
+	}
+	if !r.closed.Load() && plan.CloseFault == 1 {
+		r.exec(-1, PlanOp{K: "up"})
+		fault(true)
+		r.exec(-1, PlanOp{K: "down", A: forceScan})
+		fault(false)
+		r.count("close_fault_down", 1)
+	} else if !r.closed.Load() && plan.Round%2 == 0 {
+		// a last Down with the traffic still running exercises "nothing sent after Down returned"
 		r.exec(-1, PlanOp{K: "down"})
 		time.Sleep(3 * time.Millisecond)
 	}
 	r.stop.Store(true)
 	twg.Wait()
-	r.exec(-1, PlanOp{K: "close"})
+	if !r.closed.Load() && plan.CloseFault == 2 {
+		r.exec(-1, PlanOp{K: "up"})
+		fault(true)
+		r.count("close_fault_close", 1)
+	}
+	if plan.FinalClose2 {
+		r.exec(-1, PlanOp{K: "close2", A: 50})
+	} else {
+		r.exec(-1, PlanOp{K: "close", A: forceScan})
+	}
+	fault(false)
 	// operations after Close must not reopen anything
 	r.exec(-1, PlanOp{K: "up"})
 	r.exec(-1, PlanOp{K: "bindupdate"})
